@@ -151,6 +151,8 @@ def _fault_applicable(world, f):
             return False
         if f["kind"] == "asset_mismatch" and f["value"] not in world["assets"]:
             return False
+        if f["kind"] == "column_beyond_sheet" and (f["field"] not in world["headers"][f["table"]] or not any(t["rows"] for s in world["sheets"] for t in s["tables"] if t["type"] == f["table"])):
+            return False
         if f["kind"] in ("method_and_schedule", "bad_method_year", "unknown_method_in_schedule") and not world.get("methods"):
             return False
         if f["kind"] in ("method_not_accepted", "method_unknown") and world.get("methods"):
@@ -233,7 +235,7 @@ def exec_case(case, facts, src=None):
         if not changed:
             # a fault that did not reach the stored bytes or the command line must never be judged: the run would be a valid one
             raise runner.HarnessError("fault %r left config, spreadsheet and argv unchanged" % (fault,))
-        w = runner.World("c12f")
+        w = runner.World("c12f", opts.get("cwd_shape"))
         try:
             core.fix_outdir(w, opts)
             files = _files_for(w, opts, cfg, ods)
@@ -385,7 +387,7 @@ def _kind_sweep_cases(master, facts):
         seen = set()
         chosen = []
         for f in faults.enumerate_faults(world, opts, facts):
-            key = (f["class"], f["kind"], f.get("table"), f.get("field"), f.get("section"), f.get("value") if f["class"] in ("cmdline", "config") else None, f.get("pair"), f.get("frac"), f.get("variant"),
+            key = (f["class"], f["kind"], f.get("table"), f.get("field"), f.get("section"), repr(f.get("value")) if f["class"] in ("cmdline", "config") else None, f.get("pair"), f.get("frac"), f.get("variant"),
                    _row_type(world, f) if (f["class"] in ("nonpositive", "zero_spot", "both_fees", "bad_type") or f["kind"].startswith("empty_")) else None)
             if key in seen:
                 continue
